@@ -1016,6 +1016,8 @@ func genProxyRetry() (string, error) {
 				"r.cluster.Stats().UpstreamRequestRetryOverflow.Inc(1)": "let s := o.countOverflow s",
 				"r.retiesRemaining--":                                   "let s := o.setRemaining s (o.remaining s - 1)",
 				"r.reset()":                                             "let s := reset o s",
+				"atomic.StoreUint32(&r.retryResourceHeld, 0)":           "let s := o.setHeld s false",
+				"atomic.StoreUint32(&r.retryResourceHeld, 1)":           "let s := o.setHeld s true",
 				"check := r.shouldRetry(ctx, headers, reason)":          "let (s, check) := shouldRetry o s",
 			},
 		}
